@@ -34,11 +34,21 @@ Canon(e) ==
     THEN (IF IsNum(e.v) THEN [t |-> "Const", v |-> [k |-> "num", n |-> e.v.n, d |-> e.v.d]]
           ELSE e)
     ELSE LET ks == Kids(e)
-             e1 == WithKids(e, [i \in 1..Len(ks) |-> Canon(ks[i])])
+             e1 == WithKids(e, TLCEval([i \in 1..Len(ks) |-> Canon(ks[i])]))   \* strict
          IN  IF e.t = "CallKw" THEN [e1 EXCEPT !.kw = KwSorted(e1.kw)] ELSE e1
 
 PyEqT(a, b) == Canon(a) = Canon(b)
 CanonSet(S) == { Canon(s) : s \in S }
+
+\* ------------------------------------------------------------------------
+\* Leaf classes Expr.tla has no shape for (NaN, the three wildcards,
+\* FunctionSymbol) travel as constants whose "value" is the class tag, so that
+\* Kids / FillFirst / SubExprs of Expr.tla treat them as leaves.
+\* ------------------------------------------------------------------------
+ExoticKinds == {"NaN", "Wildcard", "DotWildcard", "StarWildcard", "FunctionSymbol"}
+XLeaf(k) == [t |-> "Const", v |-> (IF k \in {"DotWildcard", "StarWildcard"}
+                                   THEN [k |-> k, name |-> "w"] ELSE [k |-> k])]
+IsExotic(e) == e.t = "Const" /\ e.v.k \in ExoticKinds
 
 \* ------------------------------------------------------------------------
 \* Positions
@@ -75,6 +85,10 @@ Effective(raw) ==
     ELSE [subs |-> raw.cl = "true", look |-> raw.cl = "true",
           calls |-> (IF raw.cl = "true" THEN "yes" ELSE "no"), cses |-> raw.ics]
 AllOff == [subs |-> FALSE, look |-> FALSE, calls |-> "no", cses |-> FALSE]
+\* the 24 effective settings are the raw settings 1..24 (composite_leaves = None)
+NEff == 24
+EffSeq == [j \in 1..NEff |-> Effective(RawSeq[j])]
+EffIx == [i \in 1..NRaw |-> CHOOSE j \in 1..NEff : EffSeq[j] = Effective(RawSeq[i])]
 
 \* ------------------------------------------------------------------------
 \* M-layer: Deps
@@ -92,13 +106,17 @@ Visible(e, fl, p) ==
         LET n == Anc(e, p, k) IN
         /\ ~Selected(n, fl)
         /\ ~(IsCallNode(n) /\ fl.calls = "args" /\ p[k + 1] = 1)
-VisiblePaths(e, fl) == { p \in Paths(e) : Visible(e, fl, p) }
 Reported(n, fl) == n.t = "Var" \/ Selected(n, fl)
-Deps(e, fl) == { At(e, p) : p \in { q \in VisiblePaths(e, fl) : Reported(At(e, q), fl) } }
+\* (P is the set of all positions of e, passed in so that it is computed once)
+VisibleIn(e, fl, P) == { p \in P : Visible(e, fl, p) }
+DepsIn(e, fl, P) == { At(e, p) : p \in { q \in VisibleIn(e, fl, P) : Reported(At(e, q), fl) } }
+VisiblePaths(e, fl) == VisibleIn(e, fl, Paths(e))
+Deps(e, fl) == DepsIn(e, fl, Paths(e))
 
 \* kinds the stock analysis documents no handler for: reaching one is a refusal
 DepsUnsupported == {"Subst", "Deriv"}
-DepsRefusalPossible(e, fl) == \E p \in VisiblePaths(e, fl) : At(e, p).t \in DepsUnsupported
+DepsRefusalIn(e, fl, P) == \E p \in VisibleIn(e, fl, P) : At(e, p).t \in DepsUnsupported
+DepsRefusalPossible(e, fl) == DepsRefusalIn(e, fl, Paths(e))
 
 Names0(e) == { d.name : d \in Deps(e, AllOff) }
 Restrict(env, names) == [nm \in (DOMAIN env) \cap names |-> env[nm]]
@@ -126,7 +144,9 @@ OpsAt(n) == CASE n.t \in {"Sum", "Product"} -> (IF Len(n.c) = 0 THEN 0 ELSE Len(
 Slots(e, P) == UNION { { << p, i >> : i \in 1..OpsAt(At(e, p)) } : p \in P }
 Flops(e) == Cardinality(Slots(e, Paths(e)))
 FlopsAmbiguous(e) == "Remainder" \in KindsIn(e)
+\* kinds the flop counters document no handler for: reaching one is a refusal
 FlopsUnsupported == {"Slice", "None", "Subst", "Deriv"}
+FlopsRefusalPossible(e) == \E p \in Paths(e) : At(e, p).t \in FlopsUnsupported \/ IsExotic(At(e, p))
 
 OutsideCSE(e, p) == \A k \in 0..(Len(p) - 1) : Anc(e, p, k).t # "CSE"
 OuterFlops(e) == Cardinality(Slots(e, { p \in Paths(e) : OutsideCSE(e, p) }))
@@ -236,7 +256,8 @@ FISeq(es, aware, st) ==
 FI(e, a) ==
     LET st == a.st aware == a.aware
         Add(k, s) == [s EXCEPT !.n = @ + k] IN
-    CASE e.t \in {"Var", "Const"} -> st                           \* map_variable / map_constant: 0
+    CASE IsExotic(e) -> [st EXCEPT !.bad = TRUE]                  \* map_algebraic_leaf: NotImplementedError
+      [] e.t \in {"Var", "Const"} -> st                           \* map_variable / map_constant: 0
       [] e.t \in {"Sum", "Product"} ->                            \* map_sum
             IF Len(e.c) > 0 THEN Add(IF st.bug = "flopn" THEN Len(e.c) ELSE Len(e.c) - 1,
                                      FISeq(e.c, aware, st)) ELSE st
@@ -259,9 +280,15 @@ CSEFlopsImpl(e) == CSEFlopsImplB(e, "none")
 \* ------------------------------------------------------------------------
 \* "A refines M" statements checked by TLC on every generated tree
 \* ------------------------------------------------------------------------
+\* __init__ (A) against the documented meaning of composite_leaves (M), all 72 raw settings
+FlagInitAgree ==
+    \A i \in 1..NRaw : LET m == InitAttrs(RawSeq[i]) f == Effective(RawSeq[i]) IN
+        /\ m.is = f.subs /\ m.il = f.look /\ m.ic = f.calls /\ m.ics = f.cses
+        /\ EffSeq[EffIx[i]] = f
+\* the handlers against Deps, per effective setting
 DepsImplRefinesB(e, bug) ==
-    \A i \in 1..NRaw :
-        LET a == DepsImplB(e, RawSeq[i], bug) fl == Effective(RawSeq[i])
+    \A j \in 1..NEff :
+        LET a == DepsImplB(e, RawSeq[j], bug) fl == EffSeq[j]
             refuses == \E x \in a : IsMarker(x)
         IN  /\ refuses <=> DepsRefusalPossible(e, fl)
             /\ ~refuses => a = Deps(e, fl)
@@ -271,11 +298,27 @@ FlopsImplRefinesB(e, bug) ==
     LET f == FlopsImplB(e, bug) c == CSEFlopsImplB(e, bug) IN
     /\ f = -1 \/ f = Flops(e)
     /\ c = -1 \/ CSEFlopsAmbiguous(e) \/ c = CSEFlops(e)
-    /\ (f = -1) <=> (KindsIn(e) \cap FlopsUnsupported # {} \/ \E p \in Paths(e) : At(e, p).t = "None")
+    /\ (f = -1) <=> FlopsRefusalPossible(e)
     /\ (f = -1) <=> (c = -1)
 DepsImplRefines(e) == DepsImplRefinesB(e, "none")
 NodeCountImplRefines(e) == NodeCountImplRefinesB(e, "none")
 FlopsImplRefines(e) == FlopsImplRefinesB(e, "none")
+
+\* ---- negative controls: every seeded bug of the transcriptions must be refuted ----
+NegBugs == {"kwdrop", "argsfn", "cseoff", "slicestep", "lookup", "ncall", "flopn", "cseper"}
+NegTrees ==
+    LET nx == V("x") ny == V("y") nf == V("f") nt == V("t") no == V("o") IN
+    { Call(nf, << nx >>),
+      CallKw(nf, << nx >>, << KwArg("k1", ny) >>),
+      Look(no, "p"),
+      N("Sum", << CSE0(N("Product", << nx, ny >>)), CSE0(N("Product", << nx, ny >>)) >>),
+      B("Sub", nt, N("Slice", << nx, NoneE, ny >>)),
+      N("Product", << N("Sum", << nx, ny >>), N("Sum", << nx, ny >>) >>) }
+AllRefineB(e, bug) == /\ DepsImplRefinesB(e, bug)
+                      /\ NodeCountImplRefinesB(e, bug)
+                      /\ FlopsImplRefinesB(e, bug)
+NegControls == /\ \A t \in NegTrees : AllRefineB(t, "none")
+               /\ \A b \in NegBugs : \E t \in NegTrees : ~AllRefineB(t, b)
 
 \* sanity laws of the oracle itself
 OracleLaws(e) ==
@@ -287,7 +330,7 @@ OracleLaws(e) ==
     \* with all composite kinds off is a variable of the tree
     /\ \A d \in Deps(e, AllOff) : d.t = "Var"
     \* switching a composite kind on never loses a variable without a composite standing for it
-    /\ \A i \in 1..24 : LET fl == Effective(RawSeq[i]) IN
+    /\ \A i \in 1..NEff : LET fl == EffSeq[i] IN
           \A v \in Deps(e, AllOff) :
               fl.calls = "args" \/ v \in Deps(e, fl)
               \/ \E c \in Deps(e, fl) : c.t # "Var" /\ v \in Nodes(c)
